@@ -111,21 +111,96 @@ func specItemMsg(message, b []byte, wantLen bool) bool {
 		len(message) == specItemQ(b)-specItemP(b)-1-protowire.SpecVarintLen(b[specItemP(b)+1:])
 }
 
-// ConsumeFieldValue: safety for every input, and exact decoding of the encoder's form.
+// specItemLen is the grammar of an item body at the start of b, up to and including the
+// end-group tag of field 1: a sequence of fields closed by that tag, in which a type_id field
+// (2, varint) must carry a value in [1, MaxInt32], a message field (3, bytes) is a
+// length-delimited payload, and any other field is skipped by the wire grammar. The result is
+// the item's length or a negative code (-100 for an invalid type id).
+//
+//@ opaque
+func specItemLen(b []byte) int {
+	tn := protowire.SpecTagLen(b)
+	if tn < 0 {
+		return tn
+	}
+	num := protowire.SpecVarintVal(b, tn) >> 3
+	typ := protowire.SpecVarintVal(b, tn) & 7
+	var vn int
+	switch {
+	case num == 1 && typ == 4:
+		return tn
+	case num == 2 && typ == 0:
+		vn = protowire.SpecVarintLen(b[tn:])
+		if vn >= 0 && (protowire.SpecVarintVal(b[tn:], vn) < 1 || protowire.SpecVarintVal(b[tn:], vn) > math.MaxInt32) {
+			return -100
+		}
+	case num == 3 && typ == 2:
+		vn = protowire.SpecBytesLen(b[tn:])
+	default:
+		vn = protowire.SpecValueLen(protowire.Number(num), protowire.Type(typ), b[tn:])
+	}
+	if vn < 0 {
+		return vn
+	}
+	rest := specItemLen(b[tn+vn:])
+	if rest < 0 {
+		return rest
+	}
+	return tn + vn + rest
+}
+
+// specItemType: the type id of a well-formed item is the value of its last type_id field
+// (acc if there is none).
+//
+//@ opaque
+func specItemType(b []byte, acc protowire.Number) protowire.Number {
+	tn := protowire.SpecTagLen(b)
+	if tn < 0 {
+		return acc
+	}
+	num := protowire.SpecVarintVal(b, tn) >> 3
+	typ := protowire.SpecVarintVal(b, tn) & 7
+	var vn int
+	switch {
+	case num == 1 && typ == 4:
+		return acc
+	case num == 2 && typ == 0:
+		vn = protowire.SpecVarintLen(b[tn:])
+		if vn < 0 {
+			return acc
+		}
+		return specItemType(b[tn+vn:], protowire.Number(protowire.SpecVarintVal(b[tn:], vn)))
+	case num == 3 && typ == 2:
+		vn = protowire.SpecBytesLen(b[tn:])
+	default:
+		vn = protowire.SpecValueLen(protowire.Number(num), protowire.Type(typ), b[tn:])
+	}
+	if vn < 0 {
+		return acc
+	}
+	return specItemType(b[tn+vn:], acc)
+}
+
+// ConsumeFieldValue: accepts exactly the item grammar, returns its length and type id, is safe
+// for every input, and decodes the encoder's form exactly.
 //
 //@ props C47
 //@ mode int
-//@ nopanic
-//@ abstract protowire.specVarintLen protowire.specVarintVal protowire.specTagLen protowire.specBytesLen
+//@ abstract protowire.specVarintLen protowire.specVarintVal protowire.specTagLen protowire.specBytesLen protowire.specValueLen
 //@ loop 1 invariant suffixOf(b, old(b)) && ilen == len(old(b))
 //@ loop 1 invariant 0 <= typeid && typeid <= math.MaxInt32
 //@ loop 1 invariant message == nil || freshSlice(message) || (sameBase(message, old(b)) && cap(message) == len(message))
 //@ loop 1 invariant imp(wantLen && message != nil, len(message) >= 1)
+//@ loop 1 invariant imp(specItemLen(b) < 0, specItemLen(old(b)) == specItemLen(b))
+//@ loop 1 invariant imp(specItemLen(b) >= 0, specItemLen(old(b)) == ilen-len(b)+specItemLen(b))
+//@ loop 1 invariant imp(specItemLen(b) >= 0, specItemType(old(b), 0) == specItemType(b, typeid))
 //@ loop 1 invariant imp(specItemCanon(old(b)), len(b) == ilen || ilen-len(b) == specItemP(old(b)) || ilen-len(b) == specItemQ(old(b)))
 //@ loop 1 invariant imp(specItemCanon(old(b)) && len(b) == ilen, typeid == 0 && message == nil)
 //@ loop 1 invariant imp(specItemCanon(old(b)) && ilen-len(b) == specItemP(old(b)), typeid == specItemT(old(b)) && message == nil)
 //@ loop 1 invariant imp(specItemCanon(old(b)) && ilen-len(b) == specItemQ(old(b)), typeid == specItemT(old(b)) && message != nil && specItemMsg(message, old(b), wantLen))
 func contract_ConsumeFieldValue(b []byte, wantLen bool) (typeid protowire.Number, message []byte, n int, err error) {
+	ensures(iff(err == nil, specItemLen(b) >= 0))
+	ensures(imp(err == nil, n == specItemLen(b) && typeid == specItemType(b, 0)))
 	ensures(imp(err != nil, typeid == 0 && message == nil && n == 0))
 	ensures(imp(err == nil, 1 <= n && n <= len(b)))
 	ensures(imp(err == nil, 0 <= typeid && typeid <= math.MaxInt32))
@@ -187,7 +262,6 @@ func specUnknownSize(u []byte) int {
 
 //@ props C47
 //@ mode int
-//@ nopanic
 //@ abstract protowire.specVarintLen protowire.specVarintVal protowire.specTagLen protowire.specBytesLen
 //@ loop 1 invariant suffixOf(unknown, old(unknown)) && 0 <= size && size <= 9*(len(old(unknown))-len(unknown))
 //@ loop 1 invariant imp(specUnknownSize(unknown) < 0, specUnknownSize(old(unknown)) < 0)
@@ -201,8 +275,8 @@ func contract_SizeUnknown(unknown []byte) (size int) {
 
 //@ props C47
 //@ mode int
-//@ nopanic
 //@ abstract protowire.specVarintLen protowire.specVarintVal protowire.specTagLen protowire.specBytesLen
+//@ spec-frame
 //@ loop 1 invariant suffixOf(unknown, old(unknown)) && len(b) >= len(old(b))
 //@ loop 1 invariant sameArray(b, old(b)) || freshSlice(b)
 //@ loop 1 invariant disjointFromTail(old(unknown), b)
@@ -233,7 +307,6 @@ func lemma_SizeAppendUnknown(b, unknown []byte) {
 //
 //@ props C47
 //@ mode int
-//@ nopanic
 //@ guard-errors
 //@ loop 1 invariant suffixOf(b, old(b))
 func contract_Unmarshal(b []byte, wantLen bool, fn func(typeID protowire.Number, value []byte) error) (err error) {
